@@ -24,6 +24,7 @@ type task struct {
 	done      bool
 	lockDepth int
 	prio      int
+	adopted   bool // goroutine started by real code; no exit hook, so it never counts as unfinished
 }
 
 // Sched is the seeded scheduler of one bubble: real goroutines park at yield
@@ -72,7 +73,7 @@ func (s *Sched) current(site string) *task {
 	s.mu.Lock()
 	t := s.byGid[g]
 	if t == nil {
-		t = &task{id: len(s.tasks) + 1, name: "adopted@" + site, class: 2, wake: make(chan struct{}, 1), prio: 500}
+		t = &task{id: len(s.tasks) + 1, name: "adopted@" + site, class: 2, wake: make(chan struct{}, 1), prio: 500, adopted: true}
 		s.tasks = append(s.tasks, t)
 		t.started = true
 		s.byGid[g] = t
@@ -197,7 +198,9 @@ func (s *Sched) Loop() {
 		alive := 0
 		for _, t := range s.tasks {
 			if !t.done {
-				alive++
+				if !t.adopted {
+					alive++
+				}
 				if t.parked {
 					parked = append(parked, t)
 				}
@@ -221,7 +224,7 @@ func (s *Sched) Loop() {
 			var stuck []string
 			s.mu.Lock()
 			for _, t := range s.tasks {
-				if !t.done {
+				if !t.done && !t.adopted {
 					stuck = append(stuck, fmt.Sprintf("%s(last site %s)", t.name, t.site))
 				}
 			}
